@@ -141,6 +141,21 @@ void one_program(Ctx& C, std::uint64_t seed, int idx)
    Printed a_on2 = print_all(lexA, unitA, A, P, true);
    if (snapshot(A) != snap0) V("graph-changed-by-printing", "an identity snapshot of the graph differs after printing");
    if (a_on2.text != a_on.text) V("reprint-differs", "printing the same unit again with a fresh printer gives other bytes");
+   // prints that end in a refusal, of increasing depth, by fresh printers on this thread; then the unit once more: whatever a
+   // failed print leaves behind (in the process, the thread, the Lexicon) must not show in the text of a later print
+   if (idx % 4 == 1) {
+      const Lexicon& LA = lexA;
+      const Expr* deep = lexA.make_alignof(*lexA.make_literal(LA.int_type(), u8"1"));           // no printer level handles alignof
+      int failed = 0;
+      for (int k = 0; k < 400; ++k) {
+         if (k % 8 == 0) deep = lexA.make_unary_minus(*deep);
+         std::ostringstream os; Printer pp(LA, os);
+         try { pp << xpr_expr(*deep); } catch (const std::logic_error&) { ++failed; }
+      }
+      C.count("failed_prints_before_a_reprint", failed);
+      Printed again = print_all(lexA, unitA, A, P, true);
+      if (again.text != a_on.text) V("reprint-differs-after-failed-prints", "after " + std::to_string(failed) + " prints of other expressions had ended in a refusal, printing the unit again gives other bytes");
+   }
    C.count("items_printed", a_on.items); C.count("items_refused", a_on.refused);
    C.count("bytes_printed", (long long)a_on.text.size());
 
@@ -226,7 +241,7 @@ static void body(Ctx& C)
           "Lexicons with different step order, pre-created strings in reverse order, heap noise, unrelated nodes and a different number of earlier Lexicons; every "
           "global declaration, every free-standing statement and the unit are printed with and without locations; distinct = distinct program seeds");
    C.assume("the location accounting derives which located nodes are certainly printed from the program text (block bodies, branches, function bodies, members of named types)");
-   for (auto k : { "construction_pairs", "items_printed", "location_tokens_seen", "located_nodes_expected_in_output", "items_refused",
+   for (auto k : { "construction_pairs", "failed_prints_before_a_reprint", "items_printed", "location_tokens_seen", "located_nodes_expected_in_output", "items_refused",
                    "op:block", "op:handler", "op:if-else", "op:for", "op:for-in", "op:switch", "op:labeled", "op:fundecl", "op:template", "op:class", "op:enum", "op:namespace", "op:union",
                    "op:bitfield", "op:alias", "op:binary", "op:unary", "op:cast", "op:construction", "op:qualified", "op:function", "op:ptr-to-member" }) C.need(k);
    Rng seeds(C.seed);
